@@ -78,6 +78,9 @@ func evalC09(w *fw.W, unit, aux string) {
 	var works [3]int64
 	for i, n := range c09Lens {
 		s := alpha.Rep(opener, unit, "", n)
+		if strings.Contains(unit, "\x02") {
+			s = c09Distinct(opener, unit, n)
+		}
 		if tail != "" {
 			// half of the length goes to the repeated unit, half to the repeated tail byte; a single closing byte for ">"
 			if tail == ">" {
@@ -110,6 +113,22 @@ func evalC09(w *fw.W, unit, aux string) {
 	w.NonTrivial()
 	w.Outcome(uint64(works[2] / int64(c09Lens[2])))
 }
+
+// c09Distinct: opener + item(100000) + item(100001) + ... up to n bytes, item(i) = unit with its \x02 place
+// holder replaced by i: a family in which every token is DIFFERENT (a cost per token that depends on how many
+// distinct tokens came before - a memo, a set, a symbol table - is invisible to unit^k).
+func c09Distinct(opener, unit string, n int) string {
+	var sb strings.Builder
+	sb.Grow(n + 32)
+	sb.WriteString(opener)
+	for i := 100000; sb.Len() < n; i++ {
+		sb.WriteString(strings.ReplaceAll(unit, "\x02", fmt.Sprint(i)))
+	}
+	return sb.String()
+}
+
+var c09SQLDistinct = []string{"c\x02,", "c\x02 ", "\x02,", "'\x02',", "@v\x02,", "[c\x02],", "c\x02.", "c\x02=", "c\x02(", "`c\x02`,", "$c\x02$", "/*\x02*/", "c\x02 or ", "x\x02 union select ", "c\x02;", "\x02 "}
+var c09HTMLDistinct = []string{"<a\x02>", " a\x02=1", "&#\x02;", "<a\x02 ", "a\x02 ", "</a\x02>", "<!--\x02-->", "a\x02='x' ", "on\x02=", "&#x\x02", "<a\x02/"}
 
 func init() {
 	fw.Register(&fw.Check{
@@ -166,6 +185,21 @@ func init() {
 							for _, t := range c09Tails[1:] {
 								items = append(items, [2]string{u, "sql|" + o + "\x01" + t})
 							}
+						}
+					}
+					w.Each(len(items), func(i int) { w.Item(items[i][0], items[i][1]) })
+				}, Eval: evalC09},
+			{Name: "distinct-token-families", Space: "16 SQL / 11 HTML item templates with a running counter (every token of the input different: words, numbers, strings, variables, tags, attributes, references) x all openers x {4K,16K,64K}", Share: 1,
+				Run: func(w *fw.W) {
+					var items [][2]string
+					for _, u := range c09SQLDistinct {
+						for _, o := range c09SQLOpeners {
+							items = append(items, [2]string{u, "sql|" + o})
+						}
+					}
+					for _, u := range c09HTMLDistinct {
+						for _, o := range c09HTMLOpeners {
+							items = append(items, [2]string{u, "html|" + o})
 						}
 					}
 					w.Each(len(items), func(i int) { w.Item(items[i][0], items[i][1]) })
